@@ -65,6 +65,34 @@ def model_strategy(draw, quick):
             g.set('fluidcoef', mg.fmt([draw(mg.num(0.1, 1.0)), draw(mg.num(0.1, 0.5)), draw(mg.num(0.5, 2.0)),
                                        draw(mg.num(0.2, 1.5)), draw(mg.num(0.2, 1.5))]))
       gm.xml = ET.tostring(root, encoding='unicode')
+  # reach: muscles (FLV gain, activation state) optionally declared after a multi-output orientation servo on a ball joint
+  hs = list(gm.info.get('hs_joints', []))
+  balls = [n for (n, t, _) in gm.info.get('joints', []) if t == 'ball']
+  if hs and draw(st.integers(0, 2)) == 0:
+    root = ET.fromstring(gm.xml)
+    act = root.find('actuator')
+    if act is None:
+      act = ET.SubElement(root, 'actuator')
+    new = []
+    if balls and draw(st.integers(0, 3)) > 0:
+      new.append(ET.Element('orientation', name='so3', joint=draw(st.sampled_from(balls)), kp=mg.fmt(draw(mg.num(0.5, 10, 1))),
+                            kv=mg.fmt(draw(mg.num(0, 1, 1)))))
+      labels.add('act:orientation')
+    for k_ in range(draw(st.integers(1, 2))):
+      lo = draw(mg.num(-1.5, -0.3, 1))
+      new.append(ET.Element('muscle', name='mus%d' % k_, joint=draw(st.sampled_from(hs)), lengthrange='%s %s' % (mg.fmt(lo), mg.fmt(lo + draw(mg.num(1.0, 3.0, 1)))),
+                            force=mg.fmt(draw(mg.num(5, 50, 0))), vmax=mg.fmt(draw(mg.num(0.8, 3, 1))), fvmax=mg.fmt(draw(mg.num(1.1, 1.6, 1))),
+                            gear=mg.fmt(draw(mg.num(0.5, 2, 1)))))
+      labels.add('act:muscle')
+    if draw(st.booleans()):
+      for e_ in reversed(new):       # declared first: output addresses of every later actuator are shifted
+        act.insert(0, e_)
+    else:
+      for e_ in new:
+        act.append(e_)
+    if 'act:orientation' in labels:
+      labels.add('orientation-before-muscle')
+    gm.xml = ET.tostring(root, encoding='unicode')
   gm.info['labels'] = sorted(labels)
   integ_name = integ
   gm.info['flags'] = fl
@@ -232,12 +260,21 @@ def main(ck):
     integ_name, fl = gs.opt_info(lib, m)
     d = lib.make_data(m)
     mg.apply_state(lib, m, d, seed, vel_scale=5.0, pos_scale=0.8, forces=True)
+    lim_ctrl = [i for i in range(nu) if bool(m.actuator_ctrllimited[i])]
+    at_bound = None
+    if lim_ctrl and seed % 3 == 0:          # saturated control: exactly on its upper (2/3) or lower (1/3) bound
+      i_ = lim_ctrl[(seed // 3) % len(lim_ctrl)]
+      up = (seed // 7) % 3 != 0
+      d.ctrl[i_] = float(m.actuator_ctrlrange[i_][1 if up else 0])
+      at_bound = 'upper' if up else 'lower'
     lib.mj_forward(m, d)
     if lib.warnings():
       ck.discard('warning')
       return
     labels = gs.brief(gm.labels(), ('damping:', 'act:', 'fluid')) + gs.classify(lib, m) + ['int:' + integ_name] + [
         'flag:%s-off' % f for f in fl if f != 'contact']
+    if at_bound:
+      labels.append('ctrl-at-%s-bound' % at_bound)
     q0, v0 = np.array(d.qpos), np.array(d.qvel)
     M = lib.fullM(m, d)
     wM = np.linalg.eigvalsh(M)
@@ -256,11 +293,6 @@ def main(ck):
           lo, hi = m.actuator_forcerange[a]
           if min(abs(frc[oa] - lo), abs(frc[oa] - hi)) < 1e-4 * (1 + abs(hi - lo)):
             near_clamp = True
-        if bool(m.actuator_ctrllimited[a]):
-          lo, hi = m.actuator_ctrlrange[a]
-          u = float(d.ctrl[int(m.actuator_ctrladr[a])])
-          if min(abs(u - lo), abs(u - hi)) < 1e-5:
-            near_clamp = True
         if int(m.actuator_actnum[a]) and bool(m.actuator_actlimited[a]):
           lo, hi = m.actuator_actrange[a]
           w = float(d.act[int(m.actuator_actadr[a])])
@@ -273,9 +305,11 @@ def main(ck):
     ctrl_out = False
     if nu and 'actuation' not in fl:
       for a in range(int(m.nactuator)):
-        if bool(m.actuator_ctrllimited[a]) and float(m.actuator_gainprm[a][2]) != 0 and int(m.actuator_dyntype[a]) == E.mjDYN_NONE:
-          lo, hi = m.actuator_ctrlrange[a]
-          u = float(d.ctrl[int(m.actuator_ctrladr[a])])
+        ca = int(m.actuator_ctrladr[a])
+        if (int(m.actuator_ctrlnum[a]) == 1 and bool(m.actuator_ctrllimited[ca]) and float(m.actuator_gainprm[a][2]) != 0
+                and int(m.actuator_dyntype[a]) == E.mjDYN_NONE):
+          lo, hi = m.actuator_ctrlrange[ca]
+          u = float(d.ctrl[ca])
           if u < lo or u > hi:
             ctrl_out = True
     if ctrl_out:
@@ -453,7 +487,8 @@ def main(ck):
       # reported deviation (same root cause): for ctrl/act perturbations mj_stepSkip re-uses the factorisation of M - h*D
       # of the implicit integrators although D depends on ctrl/act through velocity-dependent actuator gains
       stale_u = (integ_name != 'Euler' and 'actuation' not in fl and
-                 any(float(m.actuator_gainprm[a_][2]) != 0 for a_ in range(int(m.nactuator))))
+                 any(float(m.actuator_gainprm[a_][2]) != 0 or int(m.actuator_gaintype[a_]) == E.mjGAIN_MUSCLE
+                     for a_ in range(int(m.nactuator))))
       if stale_u:
         cols[2 * nv:] = False
         labels.append('carved:implicit-velocity-gain-ctrl-act-columns')
@@ -473,19 +508,41 @@ def main(ck):
           e[i] = H
           stats['implicit_velgain_max_dev'] = max(stats['implicit_velgain_max_dev'], float(np.abs(B[:, i] - sdiff(base, step_from(du=e), H)).max()))
       if nu and not ctrl_out and not stale_u:
+        # documented: control clamping is handled - a limited control is nudged forward only if ctrl and ctrl+eps are inside
+        # its range, otherwise backward if possible (one-sided difference), otherwise the column is zero
         Bref = np.zeros((ndx, nu)); Dref = np.zeros((ns, nu))
-        ok_u = True
+        Bcref = np.zeros((ndx, nu))
+        u0 = np.array(d.ctrl)
         for i in range(nu):
+          lim = bool(m.actuator_ctrllimited[i])
+          lo, hi = (float(x) for x in m.actuator_ctrlrange[i])
+
+          def inr(a_, b_):
+            return lo <= a_ <= hi and lo <= b_ <= hi
+          can_f = (not lim) or inr(u0[i], u0[i] + H)
+          can_b = (not lim) or inr(u0[i] - H, u0[i])
           e = np.zeros(nu)
           e[i] = H
-          xp = step_from(du=e)
-          Bref[:, i] = sdiff(base, xp, H)
-          if ns:
-            Dref[:, i] = (xp[3] - base[3]) / H
-        close('B-forward', B, Bref, 1 + np.abs(B).max(), TOL_B, 'mjd_transitionFD B (forward) vs own perturbation of ctrl', 'transitionFD-B')
+          xp = step_from(du=e) if can_f else None
+          xm = step_from(du=-e) if can_b else None
+          if can_f:
+            Bref[:, i] = sdiff(base, xp, H)
+            if ns:
+              Dref[:, i] = (xp[3] - base[3]) / H
+          elif can_b:
+            Bref[:, i] = sdiff(xm, base, H)
+            if ns:
+              Dref[:, i] = (base[3] - xm[3]) / H
+            labels.append('B-backward-at-upper-bound')
+          if can_f and can_b:
+            Bcref[:, i] = sdiff(xm, xp, 2 * H)
+          else:
+            Bcref[:, i] = Bref[:, i]
+        close('B-forward', B, Bref, 1 + np.abs(B).max() + np.abs(Bref).max(), TOL_B, 'mjd_transitionFD B (forward) vs own perturbation of ctrl', 'transitionFD-B')
+        close('B-centred', Bc, Bcref, 1 + np.abs(Bc).max() + np.abs(Bcref).max(), TOL_B, 'mjd_transitionFD B (centred) vs own perturbation of ctrl', 'transitionFD-B')
         close('B-fwd-vs-centred', B, Bc, (1 + np.abs(B).max()) * cond ** 0.5, TOL_FC, 'forward vs centred B', 'transitionFD-fwd-centred')
         if ns:
-          close('D-forward', Dm, Dref, 1 + np.abs(Dm).max() + np.abs(base[3]).max(), TOL_B * 10, 'mjd_transitionFD D vs own perturbation', 'transitionFD-D')
+          close('D-forward', Dm, Dref, 1 + np.abs(Dm).max() + np.abs(Dref).max() + np.abs(base[3]).max(), TOL_B * 10, 'mjd_transitionFD D vs own perturbation', 'transitionFD-D')
       labels.append('transitionFD-checked')
 
     # ============ (c) inverse-dynamics Jacobians
